@@ -111,12 +111,12 @@ func (b *bitMask256) toTypes(reg *registry) []ID {
 
 	idx := 0
 	for i := range bins {
-		if b.bits[i] == 0 {
-			continue
-		}
 		cnt := wordSize
 		if i == bins-1 {
 			cnt = bits
+		}
+		if cnt == 0 || b.bits[i] == 0 {
+			continue
 		}
 		for j := range cnt {
 			id := ID{id: uint8(i*wordSize + j)}
